@@ -177,15 +177,38 @@ def boundary_words(ref: str, alpha) -> list:
     return res
 
 
-def check_one(ctx: Ctx, sigma, ref: str, k: int, ins: bool, dele: bool, sub: bool, origin: str, max_words: int = 400):
+# Every edit_distance call made by check_one in this process, in order (as replayable cases): if a failing case turns
+# out to depend on the calls made before it (harness/fresh.py), they are its replay.
+CALLS: list = []
+
+
+def check_one(ctx: Ctx, sigma, ref: str, k: int, ins: bool, dele: bool, sub: bool, origin: str, max_words: int = 400,
+              model: bool = True, extra_words=()):
+    """`model=False`: property on the real code only (no driver; used when a recorded program of calls is re-run in a
+    fresh interpreter).  `extra_words`: further words to judge by the DP (the recorded failing word of a replay — the
+    random-edit words are not reproducible)."""
+    n_fails_before = len(ctx.prop_fails)
+    try:
+        _check_one(ctx, sigma, ref, k, ins, dele, sub, origin, max_words, model, extra_words)
+    finally:
+        for f in ctx.prop_fails[n_fails_before:]:
+            f["_calls"] = len(CALLS)
+
+
+def _check_one(ctx: Ctx, sigma, ref: str, k: int, ins: bool, dele: bool, sub: bool, origin: str, max_words: int,
+               model: bool, extra_words):
     sy = Names(sorted(set(sigma) | set(ref)))
-    res = call(lambda: NFA.edit_distance(set(sigma), ref, k, insertion=ins, deletion=dele, substitution=sub))
-    order = [sy(a) for a in set(sigma)]
-    line = ctx.driver("drv_nfa_ops").ask(
-        toks("EDIT", len(order), order, len(ref), [sy(c) for c in ref], k, ins, dele, sub))
-    mod = L.parse_res_nfag(line)
     case = dict(input_symbols=sorted(sigma), reference_str=ref, max_edit_distance=k,
                 insertion=ins, deletion=dele, substitution=sub)
+    CALLS.append(case)
+    res = call(lambda: NFA.edit_distance(set(sigma), ref, k, insertion=ins, deletion=dele, substitution=sub))
+    if model:
+        order = [sy(a) for a in set(sigma)]
+        line = ctx.driver("drv_nfa_ops").ask(
+            toks("EDIT", len(order), order, len(ref), [sy(c) for c in ref], k, ins, dele, sub))
+        mod = L.parse_res_nfag(line)
+    else:
+        line, mod = "", None
     if res[0] == "ok":
         impl = ("ok", L.plain(res[1], sy, lambda q: tuple(q) if isinstance(q, tuple) else ("?", repr(q))))
     else:
@@ -266,8 +289,8 @@ def check_one(ctx: Ctx, sigma, ref: str, k: int, ins: bool, dele: bool, sub: boo
                                       dict(case, failure="language-targeted", word=w, result_accepts=got, expected=exp), None)
                         break
             # --- deterministic neighbours of the reference string, when the enumeration above stops short of it
-            if len(ref) > bound:
-                for w in boundary_words(ref, alpha):
+            if len(ref) > bound or extra_words:
+                for w in [x for x in extra_words if set(x) <= set(alpha)] + (boundary_words(ref, alpha) if len(ref) > bound else []):
                     exp = dp_within(ref, w, k, ins, dele, sub)
                     ctx.stat(f"boundary_word_{'in' if exp else 'out'}")
                     got = R.accepts_input(w)
@@ -305,7 +328,7 @@ def check_one(ctx: Ctx, sigma, ref: str, k: int, ins: bool, dele: bool, sub: boo
         ctx.stat("impl_raised_" + res[1])
     if ctx.evaluations % 211 == 1:
         ctx.sample(dict(case, result=repr(res[1])[:600] if res[0] == "ok" else res, model_line=line[:300]))
-    if impl != mod:
+    if model and impl != mod:
         if len(ref) + max(k, 0) > 40:       # keep the evidence readable: a 300 × 3 grid is not
             impl, mod = repr(impl)[:1500], repr(mod)[:1500]
         ctx.corr_diff("EDIT", case, impl, mod)
@@ -327,7 +350,42 @@ def probe_empty_symbol(ctx: Ctx):
                  "add_any_transition add an ε-edge, i.e. a deletion although deletion is disabled")
 
 
+def judge_program_json(text: str):
+    """Entry point of the fresh-interpreter confirmation (harness/fresh.py) and of `replay` for recorded sequences: run
+    the recorded cases in order through the real library, property only; returns the failures."""
+    ctx = Ctx("C16", "quick", 0)
+    out = []
+    for i, c in enumerate(json.loads(text)):
+        n = len(ctx.prop_fails)
+        check_one(ctx, c["input_symbols"], c["reference_str"], c["max_edit_distance"], c["insertion"], c["deletion"],
+                  c["substitution"], origin="replay", model=False, extra_words=[c["word"]] if "word" in c else ())
+        out += [(i, f["what"]) for f in ctx.prop_fails[n:]]
+    return out
+
+
+def settle_replays(ctx: Ctx):
+    """The failure run.py prints must fail as the first call of a fresh interpreter; otherwise its replay becomes the
+    recorded edit_distance calls that lead to it (harness/fresh.py; related calls = same alphabet)."""
+    from harness import fresh
+
+    def as_step(rp):
+        keys = ("input_symbols", "reference_str", "max_edit_distance", "insertion", "deletion", "substitution", "word")
+        return {k: rp[k] for k in keys if k in rp}
+
+    def make_replay(steps, rp, n_history):
+        return dict(kind="sequence", cases=steps, failure=rp.get("failure"))
+
+    fresh.settle_replays(ctx, "C16", CALLS, as_step, lambda c: {frozenset(c["input_symbols"])}, make_replay)
+
+
 def run(ctx: Ctx):
+    try:
+        run_families(ctx)
+    finally:
+        settle_replays(ctx)
+
+
+def run_families(ctx: Ctx):
     rng = ctx.rng
     thorough = ctx.thorough()
     probe_empty_symbol(ctx)
@@ -441,8 +499,12 @@ def long_families(ctx: Ctx):
 def replay(ctx: Ctx, path: str) -> int:
     data = json.load(open(path))
     rp = data.get("replay", data)
-    check_one(ctx, rp["input_symbols"], rp["reference_str"], rp["max_edit_distance"], rp["insertion"],
-              rp["deletion"], rp["substitution"], origin="replay")
+    if rp.get("kind") == "sequence":
+        for i, what in judge_program_json(json.dumps(rp["cases"])):
+            ctx.prop_fail(f"call {i + 1} of {len(rp['cases'])}: {what}", rp, None)
+    else:
+        check_one(ctx, rp["input_symbols"], rp["reference_str"], rp["max_edit_distance"], rp["insertion"],
+                  rp["deletion"], rp["substitution"], origin="replay", extra_words=[rp["word"]] if "word" in rp else ())
     if ctx.prop_fails:
         print(f"VIOLATION property=C16 replay={path}")
         print("  " + ctx.prop_fails[0]["what"])
